@@ -9,8 +9,10 @@ import (
 	"bufio"
 	"context"
 	"fmt"
+	"io"
 	"os"
 	"sort"
+	"strings"
 	"sync"
 	"time"
 
@@ -218,26 +220,31 @@ func (pm *Manager) LoadPeerstore() (addrs []ma.Multiaddr) {
 
 	defer f.Close()
 
-	scanner := bufio.NewScanner(f)
-	for scanner.Scan() {
-		addrStr := scanner.Text()
-		if len(addrStr) == 0 || addrStr[0] != '/' {
-			// skip anything that is not going to be a multiaddress
-			continue
+	// Lines can be of any length: a bufio.Scanner would stop at the
+	// first line above its buffer size and drop everything after it.
+	reader := bufio.NewReader(f)
+	for {
+		line, rerr := reader.ReadString('\n')
+		addrStr := strings.TrimSuffix(strings.TrimSuffix(line, "\n"), "\r")
+		if len(addrStr) > 0 && addrStr[0] == '/' {
+			// anything else is not going to be a multiaddress
+			addr, err := ma.NewMultiaddr(addrStr)
+			if err != nil {
+				logger.Errorf(
+					"error parsing multiaddress from %s: %s",
+					pm.peerstorePath,
+					err,
+				)
+			} else {
+				addrs = append(addrs, addr)
+			}
 		}
-		addr, err := ma.NewMultiaddr(addrStr)
-		if err != nil {
-			logger.Errorf(
-				"error parsing multiaddress from %s: %s",
-				pm.peerstorePath,
-				err,
-			)
-			continue
+		if rerr != nil {
+			if rerr != io.EOF {
+				logger.Errorf("reading %s: %s", pm.peerstorePath, rerr)
+			}
+			break
 		}
-		addrs = append(addrs, addr)
-	}
-	if err := scanner.Err(); err != nil {
-		logger.Errorf("reading %s: %s", pm.peerstorePath, err)
 	}
 	return addrs
 }
